@@ -361,18 +361,25 @@ impl PayloadHistory {
 
         // Iterate backwards over the deltas. Skip over those older than we
         // need.
+        //
+        // If the oldest delta we still have is the one following the
+        // caller’s serial, there is nothing to skip: all deltas are needed.
         let mut iter = self.deltas.iter().rev();
-        for delta in &mut iter {
-            // delta.serial() is the target serial of the delta, serial is
-            // the target serial the caller has. So we can skip over anything
-            // smaller.
-            match delta.serial().partial_cmp(&serial) {
-                Some(cmp::Ordering::Greater) => return None,
-                Some(cmp::Ordering::Equal) => break,
-                Some(cmp::Ordering::Less) => continue,
-                // Serial numbers can be incomparable. In that case the
-                // serial cannot be one of ours.
-                None => return None,
+        if self.deltas.back().map(|delta| delta.serial())
+            != Some(serial.add(1))
+        {
+            for delta in &mut iter {
+                // delta.serial() is the target serial of the delta, serial
+                // is the target serial the caller has. So we can skip over
+                // anything smaller.
+                match delta.serial().partial_cmp(&serial) {
+                    Some(cmp::Ordering::Greater) => return None,
+                    Some(cmp::Ordering::Equal) => break,
+                    Some(cmp::Ordering::Less) => continue,
+                    // Serial numbers can be incomparable. In that case the
+                    // serial cannot be one of ours.
+                    None => return None,
+                }
             }
         }
 
